@@ -635,11 +635,12 @@ func c06Lexical(ctx *core.Ctx, r *gen.Rng) {
 
 // C06 drives the loader with generated module texts and reads the schema back.
 func C06(ctx *core.Ctx) error {
-	ctx.Imports = "YLex.Keywords YLex.Model YLex.Spec Check.C06Check"
+	ctx.Imports = "YLex.Keywords YLex.Model YLex.Spec Meta.Slices Check.C06Check"
 	ctx.Rule = "L cases: one statement argument written under a random quoting style / '+' split / comment and white-space placement, loaded inside a module and read back through the public accessor; non-trivial when the text contains a character special to the lexer, has more than one part or a comment next to it. S cases: one node of a generated statement tree, all its written properties against the accessors; non-trivial when at least 3 properties were written. every pattern statement is one node read back with all the sub-statements a pattern can carry, written or not. D cases: 3 loads of one text compared by canonical dump; after the next text was loaded, the schema compiled from the previous text is read again and the previous text is loaded again, both compared with its first dump."
 	r := gen.New(ctx.Seed)
 	ctx.ShardMax = 120000
 	c06Lexical(ctx, r.Fork(1))
 	c06Statements(ctx, r.Fork(2))
+	c06Groupings(ctx, r.Fork(3))
 	return nil
 }
